@@ -10,7 +10,8 @@ import corr  # noqa
 from lib import f32, f2h, h2f  # noqa
 
 MODULES = ["InovesaModel.Props.C04", "InovesaModel.Props.C01FP", "InovesaModel.Props.TieMain", "InovesaModel.Props.TieRuler", "InovesaModel.Props.TiePhysics",
-           "InovesaModel.Props.TieMoments", "InovesaModel.Props.TieFPApply"]     # the reported length and spread are what PhaseSpace::variance computes
+           "InovesaModel.Props.TieMoments", "InovesaModel.Props.TieFPApply",
+           "InovesaModel.Props.TieKick"]        # the bunch LENGTH relaxes through the rotation, i.e. through the kick maps     # the reported length and spread are what PhaseSpace::variance computes
 LEVEL = "proof"
 U = 2.0 ** -24
 
@@ -212,7 +213,7 @@ def run(chk):
     # spread (the loop then runs an identity map in place of the wake kick; all maps must act on all bunches)
     import prog
     import shutil
-    for _ in range(1 if quick else 3):
+    for run_no in range(1 if quick else 3):
         steps = prng.choice([100, 150])
         tdp = prng.choice([2.5, 3.0])
         zoom = prng.choice([0.6, 1.5])
@@ -221,6 +222,7 @@ def run(chk):
         cur = prng.choice([["0.001", "0.002"], ["0.001", "0", "0.0005"]])
         # the grid may be shifted along one axis only: both axes keep the same cell size, the natural size stays 1
         sh = prng.choice([["--PhaseSpaceShiftX", "2"], ["--PhaseSpaceShiftY", "-2"], ["--PhaseSpaceShiftX", "-3"]])
+        sh += ["--InterpolationPoints", str(3 if run_no == 0 else prng.choice([3, 4]))]     # quadratic as well as cubic interpolation
         a = list(prog.BASE_ARGS) + ["-s", str(n), "-N", str(steps), "-T", str(int(6 * tdp)), "-n", str(steps), "-G", "0",
                                     "-d", repr(tdp / P.sync_freq_default()), "--InitialDistZoom", repr(zoom),
                                     "--derivation", str(dtn)] + sh + ["-o", "a.h5", "-I"] + cur
